@@ -52,7 +52,7 @@ func init() {
 	})
 	register(&Prop{
 		ID: "C19parse",
-		Rule: "valid generated files with ONE fault injected on a known line (illegal character in a tag, stray closing brace in text, unterminated string / block comment / tag, unknown command), at every line; " +
+		Rule: "valid generated files with ONE fault injected on a known line (illegal character in a tag, invalid UTF-8, stray closing brace in text, unterminated string / block comment / tag / quoted expression, unknown command, bad number), at every line, and files cut inside a template (blocks left open at the end of the input); " +
 			"oracle: the error carries the file name given, a line inside the input that is the line of the injected fault, and the same numbers in its message; non-trivial = the fault is not on the first or last line",
 		Gen: genC19parse,
 		Oracle: func(c *Case, impl string) *Viol {
@@ -73,6 +73,15 @@ func init() {
 			}
 			if parts[4] != "1" {
 				return &Viol{Key: "c19-text:" + c.Note, What: "file:line:col do not appear in the message text", Want: "same numbers in the text"}
+			}
+			if lohi := strings.SplitN(f[3], "-", 2); len(lohi) == 2 {
+				// a construct left open at the end of the input: any line from where it opens to the end of the input
+				lo, _ := strconv.Atoi(lohi[0])
+				hi, _ := strconv.Atoi(lohi[1])
+				if line < lo || line > hi {
+					return &Viol{Key: "c19-line:" + c.Class + ":" + c.Note, What: "the error points at line " + parts[2] + ", the construct left open spans lines " + f[3], Want: f[3]}
+				}
+				return nil
 			}
 			expect, _ := strconv.Atoi(f[3])
 			if line != expect {
@@ -241,6 +250,45 @@ func genC19parse(g *G) {
 				nt := faultLine > 1 && faultLine < len(out)
 				g.Add(Case{Req: req("parsefile19", hxs("dir/file_x.soy"), hxs(src), strconv.Itoa(faultLine)), NT: nt,
 					Class: fl.name, Note: fl.name + " on line " + strconv.Itoa(faultLine) + " of " + itoa(len(out)) + "\n" + src, NoModel: true})
+			}
+		}
+	}
+	// blocks left open at the end of the input: the file is cut after a line inside a template (so at least the
+	// {template} is open); the error must point into the open construct — from the {template} line to the end
+	// of the input — not at line 1 (the position of the closed token stream's zero token)
+	nb2 := g.N(25, 400)
+	for i := 0; i < nb2; i++ {
+		b := bg.bundle()
+		s := "// c\n\n" + b.files[0].source()
+		if _, err := soyFileSafe("x", s); err != nil {
+			continue
+		}
+		lines := strings.Split(s, "\n")
+		tmplLine := 0
+		for li, ln := range lines {
+			if strings.HasPrefix(ln, "{template ") {
+				tmplLine = li + 1
+			}
+			if strings.HasPrefix(ln, "{/template}") {
+				tmplLine = 0
+				continue
+			}
+			if tmplLine == 0 || (g.Quick() && g.R.Intn(2) != 0) {
+				continue
+			}
+			for _, tail := range []string{"\n", "", "\n\n  \n"} {
+				src := strings.Join(lines[:li+1], "\n") + tail
+				if _, err := soyFileSafe("x", src); err == nil {
+					continue
+				}
+				// only cuts that leave every tag complete and the error at the end of input: the cut line must not
+				// itself hold a half-open tag, string or comment (those are the faults above)
+				if strings.Count(lines[li], "{") != strings.Count(lines[li], "}") || strings.Contains(lines[li], "/*") || strings.Count(lines[li], "'")%2 != 0 || strings.Contains(lines[li], "{literal}") {
+					continue
+				}
+				eof := 1 + strings.Count(src, "\n")
+				g.Add(Case{Req: req("parsefile19", hxs("dir/file_x.soy"), hxs(src), strconv.Itoa(tmplLine)+"-"+strconv.Itoa(eof)), NT: tmplLine > 1,
+					Class: "unclosed-block", Note: "cut after line " + strconv.Itoa(li+1) + ", template opens on line " + strconv.Itoa(tmplLine) + "\n" + src, NoModel: true})
 			}
 		}
 	}
